@@ -454,7 +454,9 @@ class Engine:
                     # the generator only ever produces one kind of unbuildable model: a name that is ambiguous on a scope
                     # chain (FindError).  Any other refusal is the library refusing a well-formed model with a valid
                     # configuration (e.g. claim/release events that are declared but called something unusual).
-                    if kind != 'FindError' and self.pid in ('C01', 'C04'):
+                    from dznpy.ast_view import FindError  # pylint: disable=import-outside-toplevel
+                    ambiguous = isinstance(prog.build_exc, FindError) or 'more than one instance' in str(prog.build_exc)
+                    if not ambiguous and self.pid in ('C01', 'C04'):
                         self.chk.violation(f'a well-formed model with a valid configuration is refused: {kind}: {str(prog.build_exc)[:200]}',
                                            {'decls': decls, 'cfg': cfg}, {'kind': 'valid-model-refused'})
             except AssertionError:
